@@ -7,7 +7,8 @@ package main
 // usage: encgen <repo-dir> > lean/Bmc/Gen/Enc.lean
 //
 // The translator never guesses: a statement or expression outside its language makes it give up on the whole
-// method, with the reason recorded in the output (`gaveUp`).
+// method, with the reason recorded in the output (`gaveUp`). External calls kept as parameters (crypto/rand, crypto/cipher)
+// and views of the buffer that are written through: ext.go.
 
 import (
 	"fmt"
@@ -30,6 +31,9 @@ type funcSrc struct {
 // gen is the global state of one run
 type gen struct {
 	funcs map[*types.Func]funcSrc // every function declaration of the loaded packages (incl. dependencies)
+
+	modPkgs    []*packages.Package // the packages of the module that were loaded, by path
+	blockSizes map[*types.Var]int  // cipher.Block fields shown to hold an AES cipher -> aes.BlockSize
 
 	// filled while translating (reset between the two rounds)
 	structUse  map[*types.Named]map[string]bool // Go struct type -> Go field names used
@@ -82,11 +86,12 @@ func main() {
 		fmt.Fprintln(os.Stderr, "encgen: cannot load packages", err)
 		os.Exit(2)
 	}
-	g := &gen{funcs: map[*types.Func]funcSrc{}}
+	g := &gen{funcs: map[*types.Func]funcSrc{}, blockSizes: map[*types.Var]int{}}
 	packages.Visit(pkgs, nil, func(p *packages.Package) {
 		if !strings.HasPrefix(p.PkgPath, "github.com/gebn/bmc") {
 			return
 		}
+		g.modPkgs = append(g.modPkgs, p)
 		for _, f := range p.Syntax {
 			for _, d := range f.Decls {
 				if fd, ok := d.(*ast.FuncDecl); ok && fd.Body != nil {
@@ -97,6 +102,8 @@ func main() {
 			}
 		}
 	})
+
+	sort.Slice(g.modPkgs, func(i, j int) bool { return g.modPkgs[i].PkgPath < g.modPkgs[j].PkgPath })
 
 	// the layers: every `func (x *T) SerializeTo(b gopacket.SerializeBuffer, opts gopacket.SerializeOptions) error`
 	var layers []layer
@@ -163,6 +170,9 @@ func main() {
 	out.WriteString("-- A helper the translator cannot translate (floating point, interface calls) is kept as an UNINTERPRETED function\n")
 	out.WriteString("-- parameter of the layer's definition where it can only compute a value from its arguments (see `uninterpreted`):\n")
 	out.WriteString("-- the equality theorem then holds for EVERY such function, in particular for the real one.\n")
+	out.WriteString("-- Calls into crypto/rand and crypto/cipher are PARAMETERS of the layer's definition too (the bytes drawn; CBC encryption as a\n")
+	out.WriteString("-- function of the IV and of what the slice holds at the time of the call, applied in place). A local holding a slice of the\n")
+	out.WriteString("-- buffer aliases it only until the next PrependBytes / AppendBytes: used later, the translator gives up on the method.\n")
 	out.WriteString("import Bmc.Basic.GoEnc\nnamespace Bmc.Gen.Enc\nopen Bmc Bmc.GoEnc\n\n")
 	for _, c := range comments {
 		out.WriteString(c + "\n")
@@ -179,7 +189,7 @@ func main() {
 	}
 	out.WriteString("def translated : List String := [" + quoteJoin(translated) + "]\n")
 	out.WriteString("def gaveUp : List String := [" + quoteJoin(gaveUpList) + "]\n")
-	out.WriteString("/-- helpers kept as uninterpreted function parameters (layer: parameter) -/\n")
+	out.WriteString("/-- the parameters of the layers' definitions (layer: parameter): helpers kept as uninterpreted functions, and the\n    external calls (crypto/rand, crypto/cipher) a definition is parametric in -/\n")
 	out.WriteString("def uninterpreted : List String := [" + quoteJoin(g.opaqueList) + "]\n")
 	out.WriteString("\nend Bmc.Gen.Enc\n")
 	fmt.Print(out.String())
